@@ -120,6 +120,8 @@ pub struct Outcome {
     pub sample: Value,
     /// Extra counters (summed over runs in evidence).
     pub counters: Vec<(String, u64)>,
+    /// The scenario stopped early for a reason that is not a verdict.
+    pub abandoned: bool,
 }
 
 impl Outcome {
@@ -147,6 +149,10 @@ pub struct SimSetup {
     pub world_oracles: Vec<&'static str>,
     /// Whether a panic anywhere in the process is a verdict for this property.
     pub panic_is_violation: bool,
+    /// Address-space limit for the child (bytes).
+    pub rlimit_as: Option<u64>,
+    /// Base of the out-of-proportion allocation threshold (bytes).
+    pub alloc_limit: Option<usize>,
 }
 
 /// Runs one simulation. `setup` draws the swarm configuration from the tape and
@@ -168,6 +174,17 @@ where
     let virt_cap = s.virt_cap;
     let world_oracles = s.world_oracles.clone();
     let panic_is_violation = s.panic_is_violation;
+    if let Some(lim) = s.rlimit_as {
+        let r = libc::rlimit {
+            rlim_cur: lim,
+            rlim_max: lim,
+        };
+        unsafe { libc::setrlimit(libc::RLIMIT_AS, &r) };
+        crate::world::world_note_rlimit();
+    }
+    if let Some(a) = s.alloc_limit {
+        crate::shims::ALLOC_BASE_LIMIT.store(a, Ordering::SeqCst);
+    }
     let rt = build_runtime(seed);
     let (outcome, timed_out, virt_ns) = rt.block_on(async move {
         world::install(s.cluster, s.net, req.trace);
@@ -196,7 +213,8 @@ where
     all_violations.extend(outcome.violations.iter().cloned());
     let panics = take_panics();
     if panic_is_violation && !panics.is_empty() {
-        all_violations.push(("process.panic".into(), panics.join(" | ")));
+        let ctx = w.mutation_fired.clone().map(|m| format!(" [{m}]")).unwrap_or_default();
+        all_violations.push(("process.panic".into(), format!("{}{}", panics.join(" | "), ctx)));
     }
     if timed_out {
         // The scenario future is always wrapped in a virtual-time timeout:
